@@ -41,6 +41,11 @@ func rangeModel(start, end, step int) []int {
 }
 
 func (p *c04) Run(c fw.Case, r *fw.Rec) {
+	pairWorker(p.Env, p.Id, c, r, p.build(c, r))
+}
+
+// build generates the experiment of one case.
+func (p *c04) build(c fw.Case, r *fw.Rec) pairBuild {
 	rnd := p.rnd(c.Idx)
 	var src, want strings.Builder
 	src.WriteString("func f(x int) int { return x }\n\nfunc even(x int) bool { return x%2 == 0 }\n\nvar calls int\n\n// fe is the filter of guarded loops: after 60 calls it lets the body run so that the guard can stop a runaway loop\nfunc fe(x int) bool {\n\tcalls++\n\treturn calls > 60 || x%2 == 0\n}\n\nvar n, cnt, j int\nvar acc []int\n_ = j\n")
@@ -138,12 +143,12 @@ func (p *c04) Run(c fw.Case, r *fw.Rec) {
 		line("map-comprehension", sq)
 	}
 	exp := want.String()
-	pairWorker(p.Env, p.Id, c, r, pairBuild{
+	return pairBuild{
 		XGo:    map[string]string{"main.xgo": src.String()},
 		Expect: &exp,
 		Opts:   compileOpts{GenMain: true},
 		Info:   map[string]string{"linetags": "1"},
-	})
+	}
 }
 
 func (p *c04) PostRun(env *fw.Env, d *fw.Driver) {
